@@ -15,7 +15,10 @@ use crate::trace::{Op, Outcome, Trace, Violation};
 use anstream::adapter::strip_bytes;
 use std::io::{self, Write};
 
-pub const SURFACES: [&str; 6] = [
+pub const SURFACES: [&str; 9] = [
+    "strip_box_send_sync",
+    "strip_mutdyn_send",
+    "auto_never_box_send_sync",
     "strip_box",
     "strip_mutdyn",
     "strip_box_send",
@@ -431,6 +434,22 @@ pub fn execute(t: &Trace, stats: &mut Stats, record: bool) -> Outcome {
         "strip_box_send" => {
             let inner: Box<dyn Write + Send> = Box::new(w);
             let mut s = anstream::StripStream::new(inner);
+            client.run(&mut s)
+        }
+        "strip_box_send_sync" => {
+            let inner: Box<dyn Write + Send + Sync> = Box::new(w);
+            let mut s = anstream::StripStream::new(inner);
+            client.run(&mut s)
+        }
+        "strip_mutdyn_send" => {
+            let mut w = w;
+            let inner: &mut (dyn Write + Send) = &mut w;
+            let mut s = anstream::StripStream::new(inner);
+            client.run(&mut s)
+        }
+        "auto_never_box_send_sync" => {
+            let inner: Box<dyn Write + Send + Sync> = Box::new(w);
+            let mut s = anstream::AutoStream::never(inner);
             client.run(&mut s)
         }
         "strip_mut_box" => {
